@@ -173,7 +173,17 @@ func poolsOf(c Cfg) reqPools {
 	}
 	_, ms := listedMethods(c)
 	_, _, names := listedReqHdrs(c)
-	return reqPools{allowed: a, near: n, methods: ms, names: names}
+	// configurations that are not valid (C03 draws some on purpose) may list empty entries
+	nonEmpty := func(in []string) []string {
+		var out []string
+		for _, s := range in {
+			if s != "" {
+				out = append(out, s)
+			}
+		}
+		return out
+	}
+	return reqPools{allowed: a, near: n, methods: nonEmpty(ms), names: nonEmpty(names)}
 }
 
 // genBytes draws an arbitrary byte string (hostile alphabet first).
